@@ -5360,7 +5360,7 @@ func (t *Terminal) Loop() error {
 				t.mutex.Unlock()
 				return false
 			case actBracketedPasteBegin:
-				current := []rune(t.input)
+				current := copySlice(t.input)
 				t.pasting = &current
 			case actBracketedPasteEnd:
 				if t.pasting != nil {
